@@ -292,7 +292,12 @@ func concurrentPhase(w *World, c Case) (viol *Violation) {
 		}
 		f()
 	}
+	var presnap *g.Store
 	if par {
+		// a snapshot taken before the phase and shared by all readers (ops with S == 1
+		// read through it): it must show the initial version whatever happens meanwhile
+		presnap = st.Snapshot()
+		defer presnap.Close()
 		w.file.Mu = &sync.Mutex{}
 		w.file.KeepLog = false
 		var n uint32
@@ -426,6 +431,10 @@ func concurrentPhase(w *World, c Case) (viol *Violation) {
 			for round := 0; round < rep; round++ {
 				for _, op := range ops {
 					name, col := coll(op.C)
+					viaSnap := par && op.S == 1 && presnap != nil && op.K != OpSnap
+					if viaSnap {
+						col = presnap.GetCollection(name)
+					}
 					r := &readRec{worker: wi, op: op, coll: name, s: now()}
 					if !par {
 						nextAPI++
@@ -534,6 +543,9 @@ func concurrentPhase(w *World, c Case) (viol *Violation) {
 					}
 					if op.K != OpSnap {
 						r.e = now()
+					}
+					if viaSnap {
+						r.s, r.e = 0, 0 // only the initial version is a candidate
 					}
 					if !par {
 						if wi < len(apiOf) {
